@@ -31,7 +31,22 @@ META = {
             "invocation inside the loop body (Trace) and require closure (not bare-lambda) tail-call targets. Tail positions inside derived forms (cond, case, and, or, "
             "when, unless, let-family, begin) rest on their prelude macro expansions, which are not part of the "
             "compiler theorem; they are covered by the high-water-mark exploration through every derived form. "
-            "VARARG normalisation is modelled and replayed in lock-step but has no closed frame theorem yet.",
+            "VARARG normalisation is modelled and replayed in lock-step but has no closed frame theorem yet. "
+            "Round 4: the verifier now also rejects (a) a BasePointerOffset SOURCE operand unless in procedure code "
+            "with offset <= 0 (bpSrcOk; hence BpLive is a theorem, WFS.bp_src / bpLive_of_wfs), (b) a Ptr destination "
+            "of MOV/MOVIMM (dstOk; it would overwrite a heap cell, a lambda included — HeapStep.setAt is gone); 0 "
+            "rejects on every real code object. CodeLaws / GcLaws / LiveLaws are now THEOREMS for the concrete heap "
+            "(Vm/ConcreteHeap.lean over the C03 heap model, real collector cgc): concreteLaws, cgc_gcLaws (from "
+            "T03.2 runGc_spec + collect_spec/grow_spec), concreteLiveLaws; step_preserves_concrete, "
+            "step_halt_concrete, tail_loop_sp_concrete have as hypotheses only CInv of the INITIAL heap (every "
+            "lambda cell passes verifyLam, is not on the free list, has no IofArgument source; continuation cells "
+            "are WF snapshots; map size facts), ExtCodeLaws ext (builtins/eval's compiler/VPUSH keep CInv: eval's "
+            "output verifies) and, per executed CALL/TCALL/ENTER, CalleeOk (a closure / bare-lambda callee "
+            "designates a lambda cell holding procedure code — NOT derivable from 'every lambda verifies': the "
+            "entry lambda of an evaluation is a heap cell too, and callee passes inline Closure values through): "
+            "the theorems are stated for gops ext = concreteOps ext with a guarded callee, step_gops shows the "
+            "guard invisible in CalleeOk states, and the bytecode-verifier stream checks CalleeOk at every "
+            "executed call site (oracle callee-ok), argNeed <= args.len(), and iof=0 on every lambda.",
     "technique": "Lean 4 proof (frame-replacement lemmas for TCALL/ENTER over an abstract heap; compiler emits TCALL iff R7RS tail position, by induction) + lock-step replay, compiled-code comparison, stack high-water-mark oracle",
 }
 MODULE = "Marwood.Proofs.C04"
@@ -55,6 +70,18 @@ THEOREMS = [
     "Marwood.Proofs.C04.frame_header_intact_at_tcall",
     "Marwood.Proofs.C04.tail_loop_same_frame",
     "Marwood.Proofs.C04.tail_loop_sp",
+    # the heap laws as theorems about the concrete heap (Lemmas/ConcreteLaws*.lean), BpLive from WF-stack
+    "Marwood.Vm.WFS.bp_src",
+    "Marwood.Vm.bpLive_of_wfs",
+    "Marwood.Vm.step_wc",
+    "Marwood.Vm.Concrete.concreteLaws",
+    "Marwood.Vm.Concrete.cgc_gcLaws",
+    "Marwood.Vm.Concrete.concreteLiveLaws",
+    "Marwood.Vm.Concrete.step_gops",
+    "Marwood.Vm.Concrete.simBpLive_of_wfs",
+    "Marwood.Proofs.C04.step_preserves_concrete",
+    "Marwood.Proofs.C04.step_halt_concrete",
+    "Marwood.Proofs.C04.tail_loop_sp_concrete",
 ]
 
 
@@ -68,11 +95,17 @@ def nontrivial(req, impl):
 
 def bc_model_equal(req, impl, model):
     """bytecode-verifier stream: `vbc` (a code object of the real heap) must be accepted, with the kind
-    the harness sees, at least the number of temporaries observed while stepping it, and VARARG present
-    exactly for variadic lambdas; `vat` (an executed offset): the verifier's height = the observed one."""
+    the harness sees, at least the number of temporaries observed while stepping it, VARARG present
+    exactly for variadic lambdas, and its bp-relative operands inside the lambda's own argument cells; `vat` (an executed offset): the verifier's height = the observed one."""
     if req.startswith("vbc "):
         i, m = impl.split(), model.split()
-        if len(m) != 3 or m[0] != "ok" or m[1] != i[1] or "shape=1" not in impl:
+        # iof=0: no environment map of the lambda has an IofArgument source (CInv.noIofArg)
+        if len(m) != 4 or m[0] != "ok" or m[1] != i[1] or "shape=1" not in impl or "iof=0" not in impl:
+            return False
+        # m[3]: number of argument cells the code's BasePointerOffset operands address (Verify.argNeed):
+        # at most args.len() of the real lambda (compile.rs emits bp - argc + i + 1 for argument i only)
+        argc = [int(f[5:]) for f in i if f.startswith("argc=")]
+        if len(argc) != 1 or int(m[3]) > argc[0]:
             return False
         return i[2] == "-" or int(i[2]) <= int(m[2])
     return impl == model
